@@ -5,7 +5,7 @@ ID = "C01"
 PROPERTIES_V = ["theories/Properties/C01.v"]
 MAKE_TARGETS = ["theories/Properties/C01.vo", "theories/Model/BridgeCases.vo"]
 HARNESS = "bridge"
-HARNESS_ARGS = ["-prop", "c01"]
+HARNESS_ARGS = ["-prop", "c01", "-par", "4"]
 CASES_IMPORTS = bc.IMPORTS
 CASE_TYPE = "bcase"
 CORR = "corr"
@@ -15,6 +15,8 @@ RULE = ("random deposit histories: fields from {0,1,2^32-1 / 0x00..,0xff.. / nil
         "{0,1,31,32,33,64,135,136,137,300,1000}, both leaf types, 0-4 events per block incl. claims and token mappings, restarts "
         "(new processor on the same DB) at random points; every 4th case starts from a synthetic pre-state (root row + path nodes of a tree of n equal leaves, "
         "n in {1,2,3,7,8,255,256,2^16-1,2^16,2^24-2,2^31-1,2^31,2^32-6,2^32-3, 2^k-{0,1,2}}) and appends real deposits across the carry; "
+        "the last 4 (thorough 12) cases are long histories (40 blocks, about 100 deposits each) and the harness runs 4 cases at a time in one "
+        "process (as the node runs its L1 bridge, L2 bridge and L1 info tree syncers), so several trees hash and store concurrently; "
         "a case is non-trivial when it contains >= 2 deposits; distinct = distinct op list")
 ASSUMPTIONS = ["deposit counts on chain are consecutive from 0 (the contract guarantees it)",
                "Keccak-256 modelled as an injective node function in the theorems that read the stored nodes (restart)",
